@@ -31,6 +31,10 @@ def run(rep, tier, seed, replay):
         fam = _gen.exh_family(_random.Random(seed), 4000 if tier == "quick" else None)
         known = set(exprs)
         exprs += [e for e in fam if e not in known]
+        # the conjunction table of terminations, cell by cell, through computed terms
+        tf = _gen.termination_family()
+        known = set(exprs)
+        exprs += [e for e in (_random.Random(seed + 3).sample(tf, 2500) if tier == "quick" else tf) if e not in known]
     P = lib.Pair(exprs)
     h, m = P.h, P.m
     rep.evaluations = len(exprs)
